@@ -452,15 +452,13 @@ class BVMergeReducedBW:
         deffun_body = get_defined_fun(deffun_name)
         deffun_zext = int(deffun_body[0][-1].data)
         decfun_name = deffun_body[-1]
-        return [
-            Simplification(
-                {
-                    node.id:
-                    Node('define-fun', name, (), nsort,
-                         (('_', 'zero_extend', zext + deffun_zext),
-                          decfun_name))
-                }, [])
-        ]
+        res = Node('define-fun', name, (), nsort,
+                   (('_', 'zero_extend', zext + deffun_zext), decfun_name))
+        if decfun_name == name or res == node:
+            # definitions that extend each other (or themselves): merging
+            # them goes round in circles
+            return []
+        return [Simplification({node.id: res}, [])]
 
     def __str__(self):
         return 'merge previous bit-width reductions'
